@@ -362,7 +362,11 @@ type XStyle struct {
 	// RootEnd > 0: the packet ends with the root end tag written as '</x:xmpmeta S>' (variant
 	// RootEnd-1) and no trailer; set by the caller from a side lane
 	RootEnd int
-	Seed    uint64
+	// Unprefixed: names without a namespace prefix - bit 0: 'about' instead of 'rdf:about' on
+	// rdf:Description (bit 3: with a value that contains a colon), bit 1: unknown attributes,
+	// bit 2: unknown elements are called 'note'; set by the caller from a side lane
+	Unprefixed int
+	Seed       uint64
 }
 
 // DrawXStyle draws the serialiser's choices (every feature separately, so that a failing case
@@ -510,7 +514,11 @@ func (r *XRecord) Serialise(l *core.Lane, st XStyle) []byte {
 	}
 	sb.WriteString("<rdf:Description")
 	q = quote()
-	sb.WriteString(ws(1) + "rdf:about=" + q + q)
+	if st.Unprefixed&1 != 0 {
+		sb.WriteString(ws(1) + "about=" + q + []string{"", "uuid:1234"}[st.Unprefixed>>3&1] + q) // the legacy (XMP toolkit 2.x) form
+	} else {
+		sb.WriteString(ws(1) + "rdf:about=" + q + q)
+	}
 	used := map[string]bool{}
 	for _, p := range props {
 		used[p.NS] = true
@@ -531,7 +539,11 @@ func (r *XRecord) Serialise(l *core.Lane, st XStyle) []byte {
 			for i := 0; i < n; i++ {
 				v.WriteByte(xmlSafe[f.Intn(len(xmlSafe))])
 			}
-			sb.WriteString(ws(1) + unknownProps[f.Intn(len(unknownProps))] + "=" + q + v.String() + q)
+			name := unknownProps[f.Intn(len(unknownProps))]
+			if st.Unprefixed&2 != 0 {
+				name = "note"
+			}
+			sb.WriteString(ws(1) + name + "=" + q + v.String() + q)
 		}
 	}
 	for _, p := range attrs {
@@ -557,6 +569,9 @@ func (r *XRecord) Serialise(l *core.Lane, st XStyle) []byte {
 		for _, p := range elems {
 			if st.Unknown && f.Intn(3) == 0 {
 				u := unknownProps[f.Intn(len(unknownProps))]
+				if st.Unprefixed&4 != 0 {
+					u = "note"
+				}
 				sb.WriteString("<" + u + ">" + "unrelated" + "</" + u + ">" + ws(0))
 			}
 			tag := p.NS + ":" + p.Name
